@@ -109,6 +109,11 @@ func c15Run(ctx *interpreter.Interpreter, t oracle.Type, op string, a, b, c *big
 		case "negate":
 			return av.Negate(ctx)
 		case "muldiv":
+			if rule == oracle.TowardZero {
+				// the entry point programs use (`x.multiplyDivide(f, d)` without a rounding argument)
+				return interpreter.NativeFixedPointMultiplyDivideFunction(ctx, nil, nil, av,
+					[]interpreter.Value{numv.Make(t, b), numv.Make(t, c)})
+			}
 			return av.(interpreter.FixedPointValue).MultiplyDivide(ctx,
 				numv.Make(t, b).(interpreter.FixedPointValue),
 				numv.Make(t, c).(interpreter.FixedPointValue), fixRules[rule])
@@ -309,7 +314,7 @@ func TestC15(t *testing.T) {
 	rec := evid.Start(t, "C15", "direct calls of Plus/Minus/Mul/Div/Mod/Negate and MultiplyDivide (each of the four rounding rules) on Fix64, UFix64, Fix128, UFix128 values "+
 		"compared with exact math/big rationals at the type's scale (truncation toward zero for the operators, the requested rule for multiplyDivide; failure iff the rounded result is out of range; "+
 		"% may additionally fail only when the quotient at scale is out of range); operands from the fixed-point boundary pool (0, ±1 unit, ±1.0, ±0.5, 10^k, min, max, √(max·10^scale)±2) × pool plus random, "+
-		"partners derived so that sums/products/quotients land within 2 units of a range end or below one unit, triples with exact ties; plus a slice of the same cases executed as Cadence scripts on both engines. "+
+		"partners derived so that sums/products/quotients land within 2 units of a range end or below one unit, triples with exact ties; multiplyDivide without a rounding argument goes through the native function wrapper programs use; the boundary triples (a,0,0), (a,b,0), (0,b,c), (a,b,b), (a,0,c) systematically for all rules at the Go level and as scripts (default + four rules, both engines); plus a slice of the same cases executed as Cadence scripts on both engines. "+
 		"Non-trivial: the exact result has a non-zero discarded fraction, or lies within one unit of a range end, or is out of range, or the divisor is zero, or (for %) the quotient is out of range. "+
 		"Distinct by (type, op, rule, operands).")
 	k := &c15{rec: rec, t: t, ctx: context(t), useKnown: evid.ReplayFile() == ""}
@@ -380,6 +385,54 @@ func TestC15(t *testing.T) {
 		}
 	}
 
+	// boundary triples of multiplyDivide, systematically: (a,0,0), (a,b,0), (0,b,c), (a,b,b), (a,0,c)
+	// through the Go-level entry points (all rules) and as scripts on both engines (default + four rules)
+	for _, ty := range types {
+		rb := evid.Rand(int64(evid.Hash("C15b", ty.Name) % 1000003))
+		p := oracle.NewPicker(ty)
+		one := oracle.Pow10(ty.Scale)
+		zero := big.NewInt(0)
+		as := []*big.Int{zero, big.NewInt(1), one, ty.Max, new(big.Int).Sub(ty.Max, big.NewInt(1)), new(big.Int).Rsh(ty.Max, 1), p.One(rb), p.One(rb), ty.Random(rb)}
+		nz := []*big.Int{big.NewInt(1), big.NewInt(3), one, ty.Max, new(big.Int).Add(new(big.Int).Rsh(ty.Max, 1), big.NewInt(1)), ty.Random(rb)}
+		if ty.Signed() {
+			as = append(as, big.NewInt(-1), new(big.Int).Neg(one), ty.Min, new(big.Int).Add(ty.Min, big.NewInt(1)))
+			nz = append(nz, big.NewInt(-1), new(big.Int).Neg(one), ty.Min)
+		}
+		var nzs []*big.Int
+		for _, v := range nz {
+			if v.Sign() != 0 {
+				nzs = append(nzs, v)
+			}
+		}
+		type triple struct {
+			a, b, c *big.Int
+			shape   string
+		}
+		var ts []triple
+		for _, a := range as {
+			ts = append(ts, triple{a, zero, zero, "a,0,0"})
+			for _, b := range nzs {
+				ts = append(ts, triple{a, b, zero, "a,b,0"}, triple{a, b, b, "a,b,b"}, triple{a, zero, b, "a,0,c"})
+			}
+		}
+		for _, b := range nzs {
+			for _, c := range nzs {
+				ts = append(ts, triple{zero, b, c, "0,b,c"})
+			}
+		}
+		for i, tr := range ts {
+			for _, rule := range oracle.Roundings {
+				k.one(ty, "muldiv", tr.a, tr.b, tr.c, rule)
+			}
+			rec.Class("boundary-triple/" + tr.shape)
+			// scripts: every (a,0,0), a quarter of the rest
+			if tr.c.Sign() == 0 && tr.b.Sign() == 0 || i%4 == 0 {
+				k.scriptOps(ty, tr.a, tr.b, tr.c, 5)
+				rec.Class("boundary-triple-script/" + tr.shape)
+			}
+		}
+	}
+
 	// script slice: the same operations through the language on both engines
 	ns := evid.N(300, 4000)
 	r := evid.Rand(1515)
@@ -389,6 +442,11 @@ func TestC15(t *testing.T) {
 			a, b, c := k.triple(p, r, ty)
 			rule := oracle.Roundings[r.Intn(4)]
 			k.scriptCase(ty, rule.String(), a, b, c)
+		}
+	}
+	for _, shape := range []string{"a,0,0", "a,b,0", "0,b,c", "a,b,b", "a,0,c"} {
+		if rec.ClassCount("boundary-triple/"+shape) == 0 || rec.ClassCount("boundary-triple-script/"+shape) == 0 {
+			rec.Inconclusive(t, "boundary triple shape %s never generated", shape)
 		}
 	}
 	for _, ty := range types {
@@ -426,6 +484,11 @@ access(all) fun main(a: %[1]s, b: %[1]s, c: %[1]s, op: Int): %[1]s {
 
 // scriptCase runs all ten script operations for one operand triple on both engines.
 func (k *c15) scriptCase(ty oracle.Type, _ string, a, b, c *big.Int) {
+	k.scriptOps(ty, a, b, c, 0)
+}
+
+// scriptOps runs the script operations with index >= from (5.. = the five multiplyDivide forms).
+func (k *c15) scriptOps(ty oracle.Type, a, b, c *big.Int, from int) {
 	src := fmt.Sprintf(c15Script, ty.Name)
 	type sop struct {
 		op   string
@@ -434,6 +497,9 @@ func (k *c15) scriptCase(ty oracle.Type, _ string, a, b, c *big.Int) {
 	sops := []sop{{"plus", 0}, {"minus", 0}, {"mul", 0}, {"div", 0}, {"mod", 0}, {"muldiv", oracle.TowardZero},
 		{"muldiv", oracle.TowardZero}, {"muldiv", oracle.AwayFromZero}, {"muldiv", oracle.NearestHalfAway}, {"muldiv", oracle.NearestHalfEven}}
 	for i, s := range sops {
+		if i < from {
+			continue
+		}
 		e, _, modMayFail := c15Expect(ty, s.op, a, b, c, s.rule)
 		for _, eng := range host.Engines {
 			h := host.New()
